@@ -448,6 +448,30 @@ impl VisitMut for Rw {
                 *e = n;
                 return;
             }
+            // vec![a, b, ..] / vec![x; n]: the rules are applied to the element expressions as well
+            if em.mac.path.is_ident("vec") {
+                if let Ok(args) = em.mac.parse_body_with(Punctuated::<Expr, Token![,]>::parse_terminated) {
+                    let mut elems: Vec<Expr> = args.into_iter().collect();
+                    for x in elems.iter_mut() {
+                        self.visit_expr_mut(x);
+                    }
+                    *e = parse_quote! { vec![ #(#elems),* ] };
+                    return;
+                }
+                let ts = em.mac.tokens.clone();
+                if let Ok((mut a, mut b)) = syn::parse::Parser::parse2(|input: syn::parse::ParseStream| {
+                    let a: Expr = input.parse()?;
+                    let _: Token![;] = input.parse()?;
+                    let b: Expr = input.parse()?;
+                    Ok((a, b))
+                }, ts) {
+                    self.visit_expr_mut(&mut a);
+                    self.visit_expr_mut(&mut b);
+                    *e = parse_quote! { vec![ #a; #b ] };
+                    return;
+                }
+                return;
+            }
             // R-INCLUDE: include_bytes!("file") -> an opaque &'static [u8] (the embedded asset's content is not modelled)
             if em.mac.path.segments.last().map(|s| s.ident == "include_bytes").unwrap_or(false) {
                 self.log("R-INCLUDE", em.mac.path.segments[0].ident.span(), "include_bytes!(..) -> rws_include_bytes() (content opaque)");
@@ -645,6 +669,13 @@ impl Rw {
         let k = self.next_loop();
         let mut e = (*fl.expr).clone();
         self.visit_expr_mut(&mut e);
+        if let Expr::MethodCall(mc) = &mut e {
+            if mc.method == "into_iter" && mc.args.is_empty() {
+                // R-SHIM: Vec<T> -> itself, HashMap<K, V> -> Vec<(K, V)> in unspecified order
+                self.log("R-SHIM", mc.method.span(), "for .. in E.into_iter() -> E.rws_into_iter()");
+                mc.method = format_ident!("rws_into_iter", span = mc.method.span());
+            }
+        }
         self.visit_block_mut(&mut fl.body);
         let lm = self.loop_marker(k);
         fl.body.stmts.insert(0, lm);
